@@ -8,7 +8,7 @@ wt="$1"; m="$2"; sid="$3"; prop="$4"; feats="${5:-use-std}"
 md="$wt/mutants/$m"
 [ -f "$md/patch.diff" ] || { echo "no patch"; exit 2; }
 cd "$wt" || exit 2
-git checkout -q -- source 2>/dev/null
+git checkout -q -- source 2>/dev/null; git checkout -q --detach $(git -C /repo rev-parse HEAD) 2>/dev/null
 git apply --check "$md/patch.diff" || { echo "patch does not apply"; exit 2; }
 git clean -fdq source/postcard/tests
 git apply "$md/patch.diff"
